@@ -1186,6 +1186,14 @@ static void DecodeIntelDx(tLayoutCtx* pLayoutCtx) {
     tStrComp* pArg;
     Boolean   OK;
 
+    /* no layout for this segment's granularity (e.g. the 4 byte wide code
+       words of KCPSM3/Mico8): the caller left the functions unset */
+
+    if (!pLayoutCtx->Replicate) {
+        WrError(ErrNum_InstructionNotSupported);
+        return;
+    }
+
     pLayoutCtx->DSFlag       = DSNone;
     pLayoutCtx->FullWordSize = Grans[ActPC];
     pLayoutCtx->ElemsPerFullWord
